@@ -1,4 +1,4 @@
 SPECIFICATION TSpec
-INVARIANTS RevertExactT RootCanonicalT CodeHashT ReadBackT NoSuicidedT KnownFindingsT
+INVARIANTS RevertExactT RootCanonicalT CodeHashT ReadBackT NoSuicidedT KnownFindingsT HistoryIndependentT TwinIsolatedT
 POSTCONDITION TraceAccepted
 CHECK_DEADLOCK FALSE
